@@ -1373,8 +1373,9 @@ def _can_column(case):
 
 
 def _can_objective(case):
+    # needs a reaction-removing operation and another one that sets up or replaces the objective
     ops = ops_of(case["prog"])
-    return any(_removes_variables(o) and o["op"] != "remove_cons_vars" and i < len(ops) - 1 for i, o in enumerate(ops))
+    return len(ops) >= 2 and any(_removes_variables(o) and o["op"] != "remove_cons_vars" for o in ops)
 
 
 def _can_fix(case):
